@@ -595,7 +595,7 @@ class ElementFinder(object):
                 structure[k] = {"ref": child_ref, "name": k, "cls": element.child_classes[cls]}
                 try:
                     structure_by_longname[child_ref[3]] = structure[k]
-                except IndexError:
+                except (IndexError, TypeError):  # no long name, or no reference at all (e.g. v2.1 ORU_R03)
                     pass
                 counters[child_name] += 1
                 repetitions[k] = cardinality
